@@ -1,5 +1,21 @@
 """C11 — every combined relation is a true congruence and yields only proper divisors."""
+# SIZE AUDIT (quick tier), measured on cases('quick', Random(1))
+#   op                               quick max              thorough max   code supports                         boundary classes reached in quick
+#   rs_history / rs_combine /        n: 62 bits (p1, p2 of  62 bits (!)    n: Uint, x < n <= 2^512 (x packed as  BEFORE: n of 32..62 bits ONLY, in BOTH tiers: x always fits one word, the
+#     rel_verify (synthetic)         16..31 bits)                          8 words), sieves use n*k < 2^508      8-word packing of x inside the store, (r1.x * r2.x) % n and verify above 64
+#                                                                                                                bits were reached only by the real sieve runs below -> ADDED 63..512 bits
+#     large primes / maxlarge        2^32 - 1 (1/3 of the   same           p, q < 2^32 - 1 (assert p >> 32 == 0) 32-bit primes: 355 requests; the largest primes below 2^32 and the primes
+#                                    worlds), p*q < 2^64                                                         next to 2^31 / 2^16 only by chance -> ADDED (pool with those primes)
+#   sieve_history / sieve_final      n: 60..130 bits        same           n*k < 2^508                           real runs (slow): one per configuration; 64/128-bit boundary not aimed at
+#   rel_pack / rel_roundtrip         x: 512 bits, k, cof,   same           x < 2^512, p < 2^32, k: u64           x in {1,63,64,65,200,448,511,512} bits by rng.choice over ~400: reached
+#                                    clen 64 bits, p 32 bits
+#   try_factor / final_combine       n: 80..500 bits (big)  same           n <= 2^512 (ZmodN: 8 words)           random 40..250-bit primes: word boundaries of n by chance (0..5 each)
+#                                                                                                                -> ADDED exact widths 63..512 (maxchunk switches at 64 bits)
+#   final_step                       n: 115 bits            same           as above                              kernel sizes, not operand sizes, are the classes here (unchanged)
+# Added: boundary_cases (both tiers, first): histories / verify / combine / try_factor / final_combine with n = p1*p2 of exactly
+# 63, 64, 65, 127, 128, 129, 255, 256, 257, 384, 448, 500, 511, 512 bits, and 31/32-bit worlds whose pool holds the primes next to 2^16, 2^31, 2^32.
 from math import gcd
+import random
 from vlib.pipeline import Case
 from vlib import gen
 
@@ -14,7 +30,9 @@ THEOREMS = ["Ymq.C11." + t for t in (
     "add_inv2 history_no_panic walk_root_max final_step_proper cycles_tail_even try_factor_unreduced_panics above_512_bits_counterexample").split()]
 PROFILES = ["release", "chk"]
 TIMEOUT = 60.0
-RULE = ("synthetic histories for the real RelationSet: n = p1*p2 (16..31-bit primes known to the generator, square roots "
+RULE = ("first, in both tiers, a deterministic boundary family: histories, verify, combine, try_factor and final_combine with n = p1*p2 of exactly 63, 64, 65, 127, "
+        "128, 129, 255, 256, 257, 384, 448, 500, 511, 512 bits, and stores whose large-prime pool holds the primes next to 2^16, 2^31 and 2^32; then "
+        "synthetic histories for the real RelationSet: n = p1*p2 (16..31-bit primes known to the generator, square roots "
         "by Tonelli-Shanks + CRT), factor base of 8..40 primes, relations x^2 = sign*cofactor*prod p^k built by solving for x, "
         "cofactor in {1, large prime, p*q, p*p}; 10..400 adds with adversarial orderings (double before/after either prime, "
         "chains forcing recursive walks, stars, duplicates, trivial relations, p = q, dropped relations, odd cycle lengths); "
@@ -350,9 +368,9 @@ def item(rel, pq):
     return rtoken(*rel) + "|" + (f"{pq[0]},{pq[1]}" if pq else "-")
 
 
-def history(rng, size, style):
+def history(rng, size, style, world=None):
     """-> (world, list of (rel, pq)) ; every relation is valid and inside the callers' contract"""
-    w = World(rng)
+    w = world or World(rng)
     ops = []
     pool = w.pool
 
@@ -468,8 +486,8 @@ def chain_case(rng, depth, k, profiles=None):
                 k=False, tag=f"hist/chain-deep/{depth}", timeout=900.0, profiles=profiles)
 
 
-def history_case(rng, size, style):
-    w, ops = history(rng, size, style)
+def history_case(rng, size, style, world=None):
+    w, ops = history(rng, size, style, world)
     line = f"rs_history {w.n} {len(w.fb)} {w.maxlarge} " + (";".join(item(r, pq) for r, pq in ops) if ops else "-")
     return Case(line, tag="hist/" + style)
 
@@ -597,7 +615,74 @@ def corpus_case(line):
     return Case(line, tag="corpus")
 
 
+def _fork(rng, label):
+    """own stream for the boundary family: depends on the run's seed, leaves the stream of the older families untouched"""
+    return random.Random(f"{label}:{rng.getstate()[1][:4]}")
+
+
+# bit lengths of n = p1*p2 around the word boundaries of x (packed as 8 words, multiplied in 1024 bits) and at the end of the range
+BOUNDARY_NBITS = [63, 64, 65, 127, 128, 129, 255, 256, 257, 384, 448, 500, 511, 512]
+EDGE_LARGE = [65521, 65537, 65539, 2147483629, 2147483647, 2147483659, 2147483693, 4294967231, 4294967279, 4294967291]
+
+
+def boundary_world(rng, nbits, edge_pool):
+    """a World whose modulus has exactly nbits bits; edge_pool: maxlarge = 2^32 - 1 and the primes next to 2^16, 2^31, 2^32 in the pool"""
+    w = World(rng)
+    for _ in range(1000):
+        b1 = nbits // 2 + rng.randint(-(nbits // 8), nbits // 8)
+        m = Modulus(rng, b1, nbits - b1)
+        if m.n.bit_length() != nbits:
+            m = Modulus(rng, b1, nbits - b1 + 1)
+        if m.n.bit_length() == nbits:
+            break
+    assert m.n.bit_length() == nbits
+    w.m, w.n = m, m.n
+    if edge_pool:
+        w.maxlarge = (1 << 32) - 1
+        w.pool = sorted(set(EDGE_LARGE + w.pool[:4]) - {m.p1, m.p2})
+        w.pool = [p for p in w.pool if p > w.fb[-1]]
+    return w
+
+
+def boundary_cases(rng, tier):
+    """deterministic size classes (both tiers, yielded first)"""
+    styles = ["mixed", "chains", "shuffled", "doubles-first", "singles-first"]
+    j = 0
+    for nbits in [31, 32, 62] + BOUNDARY_NBITS:
+        for edge in ((True,) if nbits < 63 else (False, True)):
+            w = boundary_world(rng, nbits, edge)
+            n = w.n
+            yield history_case(rng, rng.randint(30, 60), styles[j % len(styles)], w)
+            j += 1
+            # single calls on the same modulus
+            cof = rng.choice(w.pool)
+            r = w.relation(cof, rng.choice([1, 2, 5]))
+            if r and cof <= n:
+                yield Case(f"rel_verify {n} {rtoken(*r)}", tag="verify/valid")
+                yield Case(f"rel_verify {n} {rtoken(r[0] ^ 1, r[1], r[2], r[3])}", tag="verify/invalid")
+            if r:
+                yield Case(f"rel_roundtrip {rtoken(*r)}", tag="roundtrip")
+            pp, q = rng.sample(w.pool, 2)
+            r1 = w.relation(pp * q if j % 2 else pp, 1)
+            r2 = w.relation(pp, rng.choice([1, 3]))
+            if r1 and r2:
+                a, b = (r1, r2) if j % 3 else (r2, r1)
+                yield Case(f"rs_combine {n} {rtoken(*a)} {rtoken(*b)}", tag="combine")
+            # a^2 = b^2: non-trivial, trivial, shared factor
+            a = rng.randrange(n)
+            b = (a % w.m.p1 * w.m.p2 * w.m.i1 + (-a) % w.m.p2 * w.m.p1 * w.m.i2) % n
+            yield Case(f"try_factor {n} {a} {b}", tag="try_factor/nontrivial")
+            yield Case(f"try_factor {n} {a} {(n - a) % n}", tag="try_factor/neg")
+            a = w.m.p1 * rng.randrange(1, w.m.p2)
+            yield Case(f"try_factor {n} {a} {(n - a) % n}", tag="try_factor/shared")
+            xs = [rng.randrange(n) for _ in range(rng.randint(1, 5))] + [n - 1]
+            fs = [(rng.choice([2, 3, 65537, 4294967291, -1] + w.fb + w.pool), 2 * rng.randint(1, 9)) for _ in range(rng.randint(1, 12))]
+            fs = [(f, k) for f, k in fs if f < n]
+            yield Case(f"final_combine {n} {','.join(map(str, xs))} {ftoken(fs)}", tag="final_combine/big" if nbits > 64 else "final_combine")
+
+
 def cases(tier, rng, extended=False):
+    yield from boundary_cases(_fork(rng, "C11-boundary"), tier)
     quick = tier == "quick"
     nh = 640 if quick else 10000
     nops = 3200 if quick else 40000
